@@ -85,6 +85,7 @@ func checkC08(c *Ctx) {
 	}
 	c.Floor("C08.R1", "writers of sender.frames", len(ws), 3)
 
+	c08R5(c)
 	c08R2(c)
 	c08R3(c)
 	c08R4(c)
@@ -381,6 +382,69 @@ func c08R4(c *Ctx) {
 
 // ---------------------------------------------------------------------------
 // C09
+
+// c08R5: loss of the RESP datagram is survivable only because the initiator repeats its REQ and the
+// responder answers it again, whatever it has done in between.
+func c08R5(c *Ctx) {
+	P := c.P
+	c.Rule("C08.R5", "every request to open is answered: on each path of Reliable.receiveInitiatePkt that handles a frame with the REQ flag and returns without queueing a response, the tube was found closed (a responder that stops answering repeated REQs once it has started to close leaves the initiator, whose first RESP was lost, waiting forever with the data it was sent unreadable) (E1 decision table)")
+	fn := P.Func("tubes", "(*Reliable).receiveInitiatePkt")
+	fREQ := P.Field("tubes", "frameFlags", "REQ")
+	fState := P.Field("tubes", "Reliable", "tubeState")
+	fQ := P.Field("tubes", "Reliable", "sendQueue")
+	if fn == nil || fREQ == nil || fState == nil || fQ == nil {
+		c.Undecided("C08.R5", "tubes.(*Reliable).receiveInitiatePkt", "function or fields not found")
+		return
+	}
+	closedC := pkgConst(P, "tubes", "closed")
+	name := FuncName(fn)
+	c.Analysed(name)
+	fs := newFailSet()
+	nReq := 0
+	ok := walkAll(c, "C08.R5", fn, func(p *Path) {
+		if p.Returns() == nil || errReturnClass(p) == nonNil {
+			return
+		}
+		facts := p.FactsAt(len(p.Blocks) - 1)
+		req := false
+		for k, v := range facts {
+			if k.op == token.ILLEGAL && v && lastField(k.x) == fREQ {
+				req = true
+			}
+		}
+		if !req {
+			return
+		}
+		nReq++
+		sends := 0
+		p.ForEach(func(i int, ins ssa.Instruction) bool {
+			if sd, ok := ins.(*ssa.Send); ok && lastField(sd.Chan) == fQ {
+				sends++
+			}
+			return true
+		})
+		if sends > 0 {
+			return
+		}
+		isClosed := false
+		for k, v := range facts {
+			if k.op == token.EQL && k.y != nil && v {
+				for _, pr := range [][2]ssa.Value{{k.x, k.y}, {k.y, k.x}} {
+					if n, isC := constInt(pr[1]); isC && n == closedC && lastField(pr[0]) == fState {
+						isClosed = true
+					}
+				}
+			}
+		}
+		if !isClosed {
+			fs.add("req-answered", "a frame with the REQ flag is left unanswered on a path where the tube was not found closed: if the first RESP was lost, the initiator's repeated REQs are ignored once the responder has begun to close, the initiator stays un-initiated and never reads the bytes written to it", p.Exit(), p)
+		}
+	})
+	if ok {
+		fs.report(c, "C08.R5", name, []string{"req-answered"}, P.Pos(fn.Pos()), fmt.Sprintf("REQ answered, or the tube is closed, on all %d REQ paths", nReq))
+		c.Floor("C08.R5", "paths of receiveInitiatePkt that handle a REQ", nReq, 2)
+	}
+}
 
 func checkC09(c *Ctx) {
 	P := c.P
@@ -707,9 +771,13 @@ func c09R2R3(c *Ctx) {
 				cs := ins.(ssa.CallInstruction)
 				a := cs.Common().Args
 				notFound, reqFlag, relOK := false, false, false
+				relSeen := map[bool]bool{}
 				for k, v := range p.FactsAt(i) {
 					if k.op != token.ILLEGAL {
 						continue
+					}
+					if lastField(k.x) == fRELf {
+						relSeen[v] = true
 					}
 					if ex, ok := k.x.(*ssa.Extract); ok && ex.Index == 1 && !v {
 						if call, ok := ex.Tuple.(*ssa.Call); ok && calleeID(call) == hopID("tubes", "Muxer", "getTube") {
@@ -722,6 +790,11 @@ func c09R2R3(c *Ctx) {
 					if lastField(k.x) == fRELf {
 						relOK = v == (calleeID(cs) == mkR)
 					}
+				}
+				if len(relSeen) == 2 {
+					// two reads of the frame's REL flag with different outcomes: not a feasible path
+					// (the frame is a local value; its loads are not merged by the walker)
+					return true
 				}
 				argsOK := endsInField(a[1], fTT, false) && endsInField(a[2], fTID, false)
 				if !(notFound && reqFlag && relOK && argsOK) {
